@@ -4,7 +4,9 @@
   `SMGo/Gen/SM4Code.lean` is written by the translator `gosm4` (go/cmd/translate/gosm4.go) from /repo/sm4/sm4.go on every
   check: one `let` per Go statement for `tau`, `transTPrime`, `ss`, `ssX2`, `cryptoBlock` (32 unrolled round
   statements), `cryptoBlockX2` (two blocks in 64-bit words), `byte16ToUint32`, `expandKey` (its loop unrolled by the
-  translator), `newCipherGeneric`, `newCipher` (sm4_generic.go) and `NewCipher` (the key-length test).
+  translator), `newCipherGeneric`, `newCipher` (sm4_generic.go), `NewCipher` (the key-length test), and the `cipher.Block`
+  call sites `(*sm4Cipher).Encrypt`, `Decrypt`, `encryptX2`, `decryptX2` (guards with their panic messages, reslices,
+  argument order, choice of `enc` / `dec`; section "the `cipher.Block` call sites" below).
   Bounds, in two parts.  (1) Look-ups in the PACKAGE-LEVEL tables regenerated from sm4_const.go (`Gen.SM4Const`: sbox,
   s0..s3, ck) go through `arrGet`, which takes a PROOF that the index is in range (a byte index `0xff & e` into 256
   entries, or a constant): for these there is no default value and no out-of-range case.  (2) Everything reached through
@@ -211,6 +213,203 @@ theorem C05_portable_X2_gen (key x y : Bytes) (hk : key.length = 16) (hx : x.len
   · simp only [Spec.SM4.decrypt]
     exact gen_cryptoBlockX2_eq_spec x y _ hx hy hlen'
 
+/-! ### the `cipher.Block` call sites: `Encrypt`, `Decrypt`, `encryptX2`, `decryptX2`
+
+  Regenerated from the methods `(*sm4Cipher).Encrypt/Decrypt` (receiver = first parameter `c`) and the functions
+  `encryptX2/decryptX2`: the two guards `if len(src) < BlockSize { panic("…input…") }`, `if len(dst) < BlockSize
+  { panic("…output…") }` in source order (`Res.panic msg` keeps the message), the reslices `src[:BlockSize]`,
+  `dst[:BlockSize]` (`slice _ 0 16`; the callee's writes to `dst[:16]` replace the first 16 bytes of `dst`: `spliceLo`),
+  the argument order (source first, destination second) and which key array is passed (`&sm4.enc` / `&sm4.dec`).
+  `Encrypt_pre c` is `c.enc.length = 32 ∧ c.dec.length = 32` (the `[32]uint32` fields); `encryptX2_pre c dst src` adds
+  `32 ≤ dst.length ∧ 32 ≤ src.length`: the X2 functions have no length test, Go needs `32 ≤ cap` for `x[:32]`, the list
+  model asks for `32 ≤ len`.  Value-level: `dst` and `src` are separate lists; that sharing memory makes no difference
+  rests on `cryptoBlock` reading all of `x` before writing `y` (enforced by the translator); the slice-heap statement for
+  every aliasing is Props/C05Wrap.lean (hand-written wrapper model). -/
+
+open SMGo.Model.GoSM4
+
+theorem blockSize_eq : Gen.SM4Const.BlockSize = 16 := rfl
+
+/-- `Encrypt`/`Decrypt` after their guards: `cryptoBlock(src[:16], dst[:16], rk)` seen from `dst` -/
+theorem crypt_window (rk : List W32) (dst src : Bytes) (hrk : rk.length = 32) (hs : 16 ≤ src.length)
+    (hd : 16 ≤ dst.length) :
+    spliceLo dst 16 (Gen.SM4Code.cryptoBlock (slice src 0 16) (slice dst 0 16) rk)
+      = Spec.SM4.crypt rk (src.take 16) ++ dst.drop 16 := by
+  have e1 : slice src 0 16 = src.take 16 := rfl
+  have e2 : slice dst 0 16 = dst.take 16 := rfl
+  rw [e1, e2, spliceLo, gen_cryptoBlock_eq_spec_block _ _ rk (by simp; omega) (by simp; omega) hrk]
+
+theorem cryptX2_window (rk : List W32) (dst src : Bytes) (hrk : rk.length = 32) (hs : 32 ≤ src.length)
+    (hd : 32 ≤ dst.length) :
+    spliceLo dst 32 (Gen.SM4Code.cryptoBlockX2 (slice src 0 32) (slice dst 0 32) rk)
+      = Spec.SM4.crypt rk (src.take 16) ++ Spec.SM4.crypt rk ((src.take 32).drop 16) ++ dst.drop 32 := by
+  have e1 : slice src 0 32 = src.take 32 := rfl
+  have e2 : slice dst 0 32 = dst.take 32 := rfl
+  rw [e1, e2, spliceLo, gen_cryptoBlockX2_eq_spec _ _ rk (by simp; omega) (by simp; omega) hrk,
+    List.take_take]
+  simp
+
+/-- a successful `NewCipher` was given a 16-byte key and returned the standard's round keys -/
+theorem newCipher_ok_inv (key : Bytes) (c : Gen.SM4Code.sm4Cipher) (hc : Gen.SM4Code.NewCipher key = .ok c) :
+    key.length = 16 ∧ c = { enc := Spec.SM4.keySchedule key, dec := (Spec.SM4.keySchedule key).reverse } := by
+  by_cases hk : key.length = 16
+  · rw [gen_NewCipher_accepts key hk] at hc
+    exact ⟨hk, (Outcome.ok.inj hc).symm⟩
+  · rw [gen_NewCipher_rejects key hk] at hc
+    cases hc
+
+/-- the cipher `NewCipher` builds satisfies the array-length invariant -/
+theorem cipher_pre (key : Bytes) :
+    Gen.SM4Code.Encrypt_pre { enc := Spec.SM4.keySchedule key, dec := (Spec.SM4.keySchedule key).reverse } := by
+  have hlen : (Spec.SM4.keySchedule key).length = 32 := Proofs.SM4.keySchedule_length key
+  exact ⟨hlen, by rw [List.length_reverse, hlen]⟩
+
+
+/-- `Encrypt` panics exactly when the first guard fires, with its message -/
+theorem gen_Encrypt_panics_src (c : Gen.SM4Code.sm4Cipher) (dst src : Bytes) (h : src.length < 16) :
+    Gen.SM4Code.Encrypt c dst src = .panic "crypto/sm4: input not full block" := by
+  unfold Gen.SM4Code.Encrypt
+  rw [blockSize_eq, if_pos h]
+
+theorem gen_Encrypt_panics_dst (c : Gen.SM4Code.sm4Cipher) (dst src : Bytes) (hs : 16 ≤ src.length)
+    (h : dst.length < 16) :
+    Gen.SM4Code.Encrypt c dst src = .panic "crypto/sm4: output not full block" := by
+  unfold Gen.SM4Code.Encrypt
+  rw [blockSize_eq, if_neg (by omega), if_pos h]
+
+theorem gen_Encrypt_eq_spec (c : Gen.SM4Code.sm4Cipher) (dst src : Bytes) (hc : Gen.SM4Code.Encrypt_pre c)
+    (hs : 16 ≤ src.length) (hd : 16 ≤ dst.length) :
+    Gen.SM4Code.Encrypt c dst src = .ok (Spec.SM4.crypt c.enc (src.take 16) ++ dst.drop 16) := by
+  unfold Gen.SM4Code.Encrypt
+  rw [blockSize_eq, if_neg (by omega), if_neg (by omega)]
+  simp only [crypt_window c.enc dst src hc.1 hs hd]
+
+theorem gen_Encrypt_panics_iff (c : Gen.SM4Code.sm4Cipher) (dst src : Bytes) (hc : Gen.SM4Code.Encrypt_pre c) :
+    (∃ m, Gen.SM4Code.Encrypt c dst src = .panic m) ↔ src.length < 16 ∨ dst.length < 16 := by
+  constructor
+  · rintro ⟨m, hm⟩
+    by_cases hs : src.length < 16
+    · exact Or.inl hs
+    · by_cases hd : dst.length < 16
+      · exact Or.inr hd
+      · rw [gen_Encrypt_eq_spec c dst src hc (by omega) (by omega)] at hm
+        cases hm
+  · rintro (hs | hd)
+    · exact ⟨_, gen_Encrypt_panics_src c dst src hs⟩
+    · by_cases hs : src.length < 16
+      · exact ⟨_, gen_Encrypt_panics_src c dst src hs⟩
+      · exact ⟨_, gen_Encrypt_panics_dst c dst src (by omega) hd⟩
+
+/-- with the cipher `NewCipher key` returns: the first 16 bytes of `dst` become the SM4 encryption of `src[:16]` -/
+theorem gen_Encrypt_eq_spec_key (key : Bytes) (c : Gen.SM4Code.sm4Cipher) (dst src : Bytes)
+    (hc : Gen.SM4Code.NewCipher key = .ok c) (hs : 16 ≤ src.length) (hd : 16 ≤ dst.length) :
+    Gen.SM4Code.Encrypt c dst src = .ok (Spec.SM4.encrypt key (src.take 16) ++ dst.drop 16) := by
+  obtain ⟨hk, rfl⟩ := newCipher_ok_inv key c hc
+  rw [gen_Encrypt_eq_spec _ dst src (cipher_pre key) hs hd]
+  simp only [Spec.SM4.encrypt]
+
+theorem gen_Decrypt_panics_src (c : Gen.SM4Code.sm4Cipher) (dst src : Bytes) (h : src.length < 16) :
+    Gen.SM4Code.Decrypt c dst src = .panic "crypto/sm4: input not full block" := by
+  unfold Gen.SM4Code.Decrypt
+  rw [blockSize_eq, if_pos h]
+
+theorem gen_Decrypt_panics_dst (c : Gen.SM4Code.sm4Cipher) (dst src : Bytes) (hs : 16 ≤ src.length)
+    (h : dst.length < 16) :
+    Gen.SM4Code.Decrypt c dst src = .panic "crypto/sm4: output not full block" := by
+  unfold Gen.SM4Code.Decrypt
+  rw [blockSize_eq, if_neg (by omega), if_pos h]
+
+/-- `Decrypt`: as `Encrypt`, with the array `dec` -/
+theorem gen_Decrypt_eq_spec (c : Gen.SM4Code.sm4Cipher) (dst src : Bytes) (hc : Gen.SM4Code.Decrypt_pre c)
+    (hs : 16 ≤ src.length) (hd : 16 ≤ dst.length) :
+    Gen.SM4Code.Decrypt c dst src = .ok (Spec.SM4.crypt c.dec (src.take 16) ++ dst.drop 16) := by
+  unfold Gen.SM4Code.Decrypt
+  rw [blockSize_eq, if_neg (by omega), if_neg (by omega)]
+  simp only [crypt_window c.dec dst src hc.2 hs hd]
+
+theorem gen_Decrypt_panics_iff (c : Gen.SM4Code.sm4Cipher) (dst src : Bytes) (hc : Gen.SM4Code.Decrypt_pre c) :
+    (∃ m, Gen.SM4Code.Decrypt c dst src = .panic m) ↔ src.length < 16 ∨ dst.length < 16 := by
+  constructor
+  · rintro ⟨m, hm⟩
+    by_cases hs : src.length < 16
+    · exact Or.inl hs
+    · by_cases hd : dst.length < 16
+      · exact Or.inr hd
+      · rw [gen_Decrypt_eq_spec c dst src hc (by omega) (by omega)] at hm
+        cases hm
+  · rintro (hs | hd)
+    · exact ⟨_, gen_Decrypt_panics_src c dst src hs⟩
+    · by_cases hs : src.length < 16
+      · exact ⟨_, gen_Decrypt_panics_src c dst src hs⟩
+      · exact ⟨_, gen_Decrypt_panics_dst c dst src (by omega) hd⟩
+
+theorem gen_Decrypt_eq_spec_key (key : Bytes) (c : Gen.SM4Code.sm4Cipher) (dst src : Bytes)
+    (hc : Gen.SM4Code.NewCipher key = .ok c) (hs : 16 ≤ src.length) (hd : 16 ≤ dst.length) :
+    Gen.SM4Code.Decrypt c dst src = .ok (Spec.SM4.decrypt key (src.take 16) ++ dst.drop 16) := by
+  obtain ⟨hk, rfl⟩ := newCipher_ok_inv key c hc
+  obtain ⟨h1, h2⟩ := cipher_pre key
+  have hp : Gen.SM4Code.Decrypt_pre { enc := Spec.SM4.keySchedule key, dec := (Spec.SM4.keySchedule key).reverse } :=
+    And.intro h1 h2
+  rw [gen_Decrypt_eq_spec _ dst src hp hs hd]
+  simp only [Spec.SM4.decrypt]
+
+/-- `encryptX2` (no length test; `src[:32]`, `dst[:32]`): two blocks of the standard with `enc`, rest of `dst` kept -/
+theorem gen_encryptX2_eq_spec (c : Gen.SM4Code.sm4Cipher) (dst src : Bytes) (h : Gen.SM4Code.encryptX2_pre c dst src) :
+    Gen.SM4Code.encryptX2 c dst src
+      = Spec.SM4.crypt c.enc (src.take 16) ++ Spec.SM4.crypt c.enc ((src.take 32).drop 16) ++ dst.drop 32 := by
+  obtain ⟨h1, h2, h3, h4⟩ := h
+  rw [show Gen.SM4Code.encryptX2 c dst src
+    = spliceLo dst 32 (Gen.SM4Code.cryptoBlockX2 (slice src 0 32) (slice dst 0 32) c.enc) from rfl]
+  exact cryptX2_window c.enc dst src h1 h4 h3
+
+/-- `decryptX2`: the same with `dec` -/
+theorem gen_decryptX2_eq_spec (c : Gen.SM4Code.sm4Cipher) (dst src : Bytes) (h : Gen.SM4Code.decryptX2_pre c dst src) :
+    Gen.SM4Code.decryptX2 c dst src
+      = Spec.SM4.crypt c.dec (src.take 16) ++ Spec.SM4.crypt c.dec ((src.take 32).drop 16) ++ dst.drop 32 := by
+  obtain ⟨h1, h2, h3, h4⟩ := h
+  rw [show Gen.SM4Code.decryptX2 c dst src
+    = spliceLo dst 32 (Gen.SM4Code.cryptoBlockX2 (slice src 0 32) (slice dst 0 32) c.dec) from rfl]
+  exact cryptX2_window c.dec dst src h2 h4 h3
+
+/-- the X2 call sites with the cipher of `NewCipher key` -/
+theorem gen_encryptX2_decryptX2_eq_spec_key (key : Bytes) (c : Gen.SM4Code.sm4Cipher) (dst src : Bytes)
+    (hc : Gen.SM4Code.NewCipher key = .ok c) (hs : 32 ≤ src.length) (hd : 32 ≤ dst.length) :
+    Gen.SM4Code.encryptX2 c dst src
+        = Spec.SM4.encrypt key (src.take 16) ++ Spec.SM4.encrypt key ((src.take 32).drop 16) ++ dst.drop 32
+    ∧ Gen.SM4Code.decryptX2 c dst src
+        = Spec.SM4.decrypt key (src.take 16) ++ Spec.SM4.decrypt key ((src.take 32).drop 16) ++ dst.drop 32 := by
+  obtain ⟨hk, rfl⟩ := newCipher_ok_inv key c hc
+  obtain ⟨h1, h2⟩ := cipher_pre key
+  have he : Gen.SM4Code.encryptX2_pre
+      { enc := Spec.SM4.keySchedule key, dec := (Spec.SM4.keySchedule key).reverse } dst src :=
+    And.intro h1 (And.intro h2 (And.intro hd hs))
+  have hd' : Gen.SM4Code.decryptX2_pre
+      { enc := Spec.SM4.keySchedule key, dec := (Spec.SM4.keySchedule key).reverse } dst src :=
+    And.intro h1 (And.intro h2 (And.intro hd hs))
+  rw [gen_encryptX2_eq_spec _ dst src he, gen_decryptX2_eq_spec _ dst src hd']
+  simp only [Spec.SM4.encrypt, Spec.SM4.decrypt, and_self]
+
+/-- **round trip through the regenerated call sites**: with the cipher of `NewCipher key`, `Encrypt` into any `dst`
+    followed by `Decrypt` of that result into any `dst'` (also `dst'` = the ciphertext buffer itself: in place) gives back
+    the first 16 bytes of `src`; nothing beyond the first 16 bytes of either destination changes -/
+theorem gen_Decrypt_Encrypt (key : Bytes) (c : Gen.SM4Code.sm4Cipher) (dst dst' src : Bytes)
+    (hc : Gen.SM4Code.NewCipher key = .ok c) (hs : 16 ≤ src.length) (hd : 16 ≤ dst.length) (hd' : 16 ≤ dst'.length) :
+    ∃ ct, Gen.SM4Code.Encrypt c dst src = .ok ct ∧ ct.drop 16 = dst.drop 16
+      ∧ Gen.SM4Code.Decrypt c dst' ct = .ok (src.take 16 ++ dst'.drop 16)
+      ∧ Gen.SM4Code.Decrypt c ct ct = .ok (src.take 16 ++ dst.drop 16) := by
+  have hlen : (Spec.SM4.encrypt key (src.take 16)).length = 16 := Proofs.SM4.crypt_length _ _
+  have htake : (Spec.SM4.encrypt key (src.take 16) ++ dst.drop 16).take 16 = Spec.SM4.encrypt key (src.take 16) := by
+    rw [List.take_append_of_le_length (by omega), List.take_of_length_le (by omega)]
+  have hdrop : (Spec.SM4.encrypt key (src.take 16) ++ dst.drop 16).drop 16 = dst.drop 16 := by
+    rw [List.drop_append_of_le_length (by omega), List.drop_of_length_le (by omega), List.nil_append]
+  have hct : 16 ≤ (Spec.SM4.encrypt key (src.take 16) ++ dst.drop 16).length := by
+    rw [List.length_append]; omega
+  have hinv : Spec.SM4.decrypt key (Spec.SM4.encrypt key (src.take 16)) = src.take 16 :=
+    Proofs.SM4.crypt_reverse_crypt _ _ (by simp; omega)
+  refine ⟨_, gen_Encrypt_eq_spec_key key c dst src hc hs hd, hdrop, ?_, ?_⟩
+  · rw [gen_Decrypt_eq_spec_key key c dst' _ hc hct hd', htake, hinv]
+  · rw [gen_Decrypt_eq_spec_key key c _ _ hc hct hct, htake, hinv, hdrop]
+
 /-! ### the generated code evaluated in the kernel (tests, labelled as such) -/
 
 local notation "exKey" =>
@@ -285,6 +484,25 @@ end SMGo.Props.C05Gen
 #print axioms SMGo.Props.C05Gen.gen_NewCipher_accepts
 #print axioms SMGo.Props.C05Gen.C05_portable_gen
 #print axioms SMGo.Props.C05Gen.C05_portable_X2_gen
+#print axioms SMGo.Props.C05Gen.blockSize_eq
+#print axioms SMGo.Props.C05Gen.crypt_window
+#print axioms SMGo.Props.C05Gen.cryptX2_window
+#print axioms SMGo.Props.C05Gen.newCipher_ok_inv
+#print axioms SMGo.Props.C05Gen.cipher_pre
+#print axioms SMGo.Props.C05Gen.gen_Encrypt_panics_src
+#print axioms SMGo.Props.C05Gen.gen_Encrypt_panics_dst
+#print axioms SMGo.Props.C05Gen.gen_Encrypt_eq_spec
+#print axioms SMGo.Props.C05Gen.gen_Encrypt_panics_iff
+#print axioms SMGo.Props.C05Gen.gen_Encrypt_eq_spec_key
+#print axioms SMGo.Props.C05Gen.gen_Decrypt_panics_src
+#print axioms SMGo.Props.C05Gen.gen_Decrypt_panics_dst
+#print axioms SMGo.Props.C05Gen.gen_Decrypt_eq_spec
+#print axioms SMGo.Props.C05Gen.gen_Decrypt_panics_iff
+#print axioms SMGo.Props.C05Gen.gen_Decrypt_eq_spec_key
+#print axioms SMGo.Props.C05Gen.gen_encryptX2_eq_spec
+#print axioms SMGo.Props.C05Gen.gen_decryptX2_eq_spec
+#print axioms SMGo.Props.C05Gen.gen_encryptX2_decryptX2_eq_spec_key
+#print axioms SMGo.Props.C05Gen.gen_Decrypt_Encrypt
 #print axioms SMGo.Props.C05Gen.gen_test_A1_round_keys
 #print axioms SMGo.Props.C05Gen.gen_test_A1_vector
 #print axioms SMGo.Props.C05Gen.gen_test_A1_X2
